@@ -2,7 +2,7 @@
 (* Exhaustive check (C04, C10): the operational schedule equals the declarative one for every small table,
    window, direction, discrete/continuous mode and frequency; nothing is released outside [start, stop);
    refusal happens exactly when the schedule is empty.  Tables are grown by actions in simulation order. *)
-EXTENDS Release, TLC
+EXTENDS Release, TLC, Json
 CONSTANTS TMAX, MAXROWS, MAXMULT, FREQS
 VARIABLES c, tb, phase, step, idx, total
 vars == <<c, tb, phase, step, idx, total>>
@@ -29,6 +29,8 @@ Run == /\ phase = "run" /\ step < Nsteps(c) - 1
 Next == AddRow \/ Start \/ Run
 Spec == Init /\ [][Next]_vars
 
+\* scenario emission for replay into the real releaser (GEN configuration): every (window, direction, mode, table) of the bound
+EmitScenario == (phase \in {"run", "refused"} /\ step = -1) => PrintT(<<"SCN", ToJson([cfg |-> c, table |-> tb, refused |-> phase = "refused"])>>)
 Ids(rs) == [i \in 1..Len(rs) |-> rs[i].id]
 \* the release performed at the current step is the declared one (rows, order, multiplicity)
 OpIsDecl == [][(phase = "run" /\ phase' = "run") =>
